@@ -832,7 +832,7 @@ def oracle_attrs(ctx, reg, obs, ver, state, when, err=None):
         return
     name = OT_OF[CLASS_OF_SECRET(reg['secret'])].name
     witness = {'registered': jsonable(reg['secret']), 'attributes': jsonable(reg['attrs']), 'expected': jsonable(exp), 'returned': jsonable(obs),
-               'registered_under': reg['ver'], 'read_under': ver, 'when': when}
+               'registered_under': reg['ver'], 'read_under': ver, 'when': when, 'client_call': reg.get('call')}
     if obs is not None:
         untyped = [(n, i, (v[0], v[1], E.NameType.UNINTERPRETED_TEXT_STRING.value) if n == 1 else v) for n, i, v in exp]
         if obs == untyped:
@@ -1078,6 +1078,169 @@ def scenario_history(ctx, der):
     return events
 
 
+def client_history(ctx, rng, der, hid, n_calls):
+    """Application-level history: ONE ProxyKmipClient object (one KMIPProxy) issues a sequence of create / create_key_pair /
+    register / derive_key calls with varying optional arguments; every object is then read back (same client, the other
+    versions' clients, after a re-open) and must report exactly what ITS call supplied plus the server-assigned attributes.
+    The caller's argument lists must come back unchanged.  Register calls are also replayed on the model; the other operations
+    take identifiers the model does not describe (EForeign)."""
+    from kmip.pie import objects as po
+    from kmip.pie import factory as pfactory
+    M = E.CryptographicUsageMask
+    st = Stack(ctx, der, chunk=rng.choice([7, 4096]))
+    wver = rng.choice(VERS)
+    cl = st.clients[wver]
+    events, regs, derivable = [], {}, []
+    members = list(M)
+
+    def g_masks():
+        r = rng.random()
+        if r < 0.25:
+            return None
+        if r < 0.35:
+            return []
+        return rng.sample(members, rng.randint(1, 4))
+
+    def g_policy():
+        return None if (wver >= (2, 0) or rng.random() < 0.6) else rng.choice(['default', 'site-policy'])
+
+    def mask_int(ms):
+        z = 0
+        for m in ms or []:
+            z |= m.value
+        return z
+
+    def note(uid, cls, alg, length, attrs, call):
+        regs[uid] = {'uid': uid, 'ver': wver, 'now': st.eng.clock.t, 'state': E.State.PRE_ACTIVE.value, 'attrs': attrs, 'call': call,
+                     'secret': ({'k': 'key', 'cls': cls, 'kb': {'alg': alg, 'len': length}} if cls in ('CSym', 'CPub', 'CPriv')
+                                else {'k': {'CSecret': 'secret', 'COpaque': 'opaque', 'CCert': 'cert'}[cls], 'ctype': 1})}
+
+    def unchanged(before, after, call):
+        if before != after:
+            ctx.violation({'op': 'CLIENT', 'what': 'caller argument mutated'}, {'call': call, 'before': repr(before), 'after': repr(after)},
+                          'the client library changes a list the application passed in')
+
+    def read_back(when, uids=None):
+        for uid in sorted(uids if uids is not None else regs):
+            reg = regs[uid]
+            for ver in [wver] + rng.sample(VERS, 2):
+                obs = st.attrs(ver, uid)
+                oracle_attrs(ctx, reg, obs, ver, reg['state'], when, st.last_err)
+                ctx.cov['evaluations'] += 1
+            ctx.case_seen(('client-readback', hid, uid, when), nontrivial=True)
+    try:
+        for k in range(n_calls):
+            st.eng.clock.t += rng.choice([1, 60])
+            r = rng.random()
+            call_no = 'call #%d on one ProxyKmipClient(kmip_version=%d.%d)' % ((k + 1,) + wver)
+            try:
+                if r < 0.45:
+                    masks, name, pol = g_masks(), (g_shared(rng) if rng.random() < 0.6 else None), g_policy()
+                    alg, length = rng.choice([(E.CryptographicAlgorithm.AES, 128), (E.CryptographicAlgorithm.AES, 192), (E.CryptographicAlgorithm.AES, 256),
+                                              (E.CryptographicAlgorithm.CAMELLIA, 128), (E.CryptographicAlgorithm.TRIPLE_DES, 192)])
+                    keep = None if masks is None else list(masks)
+                    call = '%s: create(%s, %d, operation_policy_name=%r, name=%r, cryptographic_usage_mask=%r)' % (
+                        call_no, alg.name, length, pol, name, None if masks is None else [m.name for m in masks])
+                    uid = int(cl.create(alg, length, operation_policy_name=pol, name=name, cryptographic_usage_mask=masks))
+                    unchanged(keep, masks, call)
+                    events.append({'e': 'foreign'})
+                    attrs = [{'kind': 'mask', 'idx': None, 'z': M.ENCRYPT.value | M.DECRYPT.value | mask_int(masks)}]
+                    if name:
+                        attrs.append({'kind': 'name', 'idx': None, 'v': name, 't': 1})
+                    if pol:
+                        attrs.append({'kind': 'policy', 'idx': None, 's': pol})
+                    note(uid, 'CSym', alg.value, length, attrs, call)
+                    if M.DERIVE_KEY in (masks or []):
+                        derivable.append(uid)
+                    ctx.count('client.create')
+                elif r < 0.6:
+                    pm, vm = (g_masks() or [rng.choice(members)]), (g_masks() or [rng.choice(members)])
+                    pn, vn = (g_shared(rng) if rng.random() < 0.5 else None), (g_shared(rng) if rng.random() < 0.5 else None)
+                    pol = g_policy()
+                    keep = (None if pm is None else list(pm), None if vm is None else list(vm))
+                    call = '%s: create_key_pair(RSA, 1024, operation_policy_name=%r, public_name=%r, public_usage_mask=%r, private_name=%r, private_usage_mask=%r)' % (
+                        call_no, pol, pn, None if pm is None else [m.name for m in pm], vn, None if vm is None else [m.name for m in vm])
+                    pub, priv = cl.create_key_pair(E.CryptographicAlgorithm.RSA, 1024, operation_policy_name=pol, public_name=pn,
+                                                   public_usage_mask=pm, private_name=vn, private_usage_mask=vm)
+                    unchanged(keep, (pm, vm), call)
+                    events.append({'e': 'foreign'})
+                    events.append({'e': 'foreign'})
+                    for uid, cls, ms, nm in ((int(pub), 'CPub', pm, pn), (int(priv), 'CPriv', vm, vn)):
+                        attrs = [{'kind': 'mask', 'idx': None, 'z': mask_int(ms)}]
+                        if nm:
+                            attrs.append({'kind': 'name', 'idx': None, 'v': nm, 't': 1})
+                        if pol:
+                            attrs.append({'kind': 'policy', 'idx': None, 's': pol})
+                        note(uid, cls, E.CryptographicAlgorithm.RSA.value, 1024, attrs, call)
+                    ctx.count('client.create_key_pair')
+                elif r < 0.85:
+                    masks = g_masks()
+                    nm = g_shared(rng)
+                    asi = [{'application_namespace': g_shared(rng), 'application_data': g_shared(rng)} for _ in range(rng.choice([0, 0, 1, 2]))]
+                    keep = (None if masks is None else list(masks), [dict(a) for a in asi])
+                    kind = rng.choice(['sym', 'secret', 'pub', 'opaque'])
+                    if kind == 'sym':
+                        value = bytes(rng.randrange(256) for _ in range(rng.choice([16, 32])))
+                        obj = po.SymmetricKey(E.CryptographicAlgorithm.AES, 8 * len(value), value, masks=masks, name=nm, app_specific_info=asi or None)
+                    elif kind == 'secret':
+                        obj = po.SecretData(g_bytes(rng, 40) or b'x', E.SecretDataType.PASSWORD, masks=masks, name=nm, app_specific_info=asi or None)
+                    elif kind == 'pub':
+                        obj = po.PublicKey(E.CryptographicAlgorithm.RSA, 1024, g_bytes(rng, 60) or b'k', E.KeyFormatType.PKCS_1, masks=masks, name=nm,
+                                           app_specific_info=asi or None)
+                    else:
+                        obj = po.OpaqueObject(g_bytes(rng, 40), E.OpaqueDataType.NONE, name=nm)
+                        asi, masks = [], None
+                    call = '%s: register(%s(masks=%r, name=%r, app_specific_info=%r))' % (
+                        call_no, type(obj).__name__, None if masks is None else [m.name for m in masks], nm, asi)
+                    secret = abs_secret(pfactory.ObjectFactory().convert(obj))
+                    attrs = []
+                    if kind != 'opaque':
+                        attrs.append({'kind': 'mask', 'idx': None, 'z': mask_int(obj.cryptographic_usage_masks)})
+                    attrs += [{'kind': 'name', 'idx': None, 'v': n, 't': 1} for n in obj.names]
+                    attrs += [{'kind': 'asi', 'idx': 0, 'ns': a['application_namespace'], 'd': a['application_data']} for a in asi]
+                    try:
+                        uid = int(cl.register(obj))
+                    except Exception:
+                        uid = None
+                    unchanged(keep, (masks, asi) if kind != 'opaque' else keep, call)
+                    events.append({'e': 'register', 'ver': wver, 'owner': 'alice', 'now': st.eng.clock.t, 'secret': secret, 'attrs': attrs, 'obs': uid})
+                    ctx.count('client.register.%s' % ('ok' if uid is not None else 'refused'))
+                    if uid is not None:
+                        regs[uid] = {'uid': uid, 'ver': wver, 'now': st.eng.clock.t, 'state': E.State.PRE_ACTIVE.value, 'attrs': attrs, 'call': call,
+                                     'secret': secret}
+                        obs = st.get(rng.choice(VERS), uid)
+                        events.append({'e': 'get', 'uid': uid, 'obs': obs})
+                        oracle_get(ctx, regs[uid], obs, wver, 'client history %d %s' % (hid, call_no), st.last_err)
+                elif derivable:
+                    base = rng.choice(derivable)
+                    masks = g_masks()
+                    keep = None if masks is None else list(masks)
+                    length = rng.choice([128, 256])
+                    call = '%s: derive_key(SYMMETRIC_KEY, [%d], HASH, sha256, cryptographic_length=%d, cryptographic_algorithm=AES, cryptographic_usage_mask=%r)' % (
+                        call_no, base, length, None if masks is None else [m.name for m in masks])
+                    kw = {'cryptographic_length': length, 'cryptographic_algorithm': E.CryptographicAlgorithm.AES}
+                    if masks:
+                        kw['cryptographic_usage_mask'] = masks
+                    uid = int(cl.derive_key(E.ObjectType.SYMMETRIC_KEY, [str(base)], E.DerivationMethod.HASH,
+                                            {'cryptographic_parameters': {'hashing_algorithm': E.HashingAlgorithm.SHA_256}}, **kw))
+                    unchanged(keep, masks, call)
+                    events.append({'e': 'foreign'})
+                    note(uid, 'CSym', E.CryptographicAlgorithm.AES.value, length, [{'kind': 'mask', 'idx': None, 'z': mask_int(masks)}], call)
+                    ctx.count('client.derive_key')
+            except Exception as e:
+                st.clients[wver].proxy.protocol.socket.rbuf = b''
+                ctx.count('client.call-refused.%s.%s' % ('create' if r < 0.45 else 'create_key_pair' if r < 0.6 else 'register' if r < 0.85 else 'derive_key', str(e)[:70]))
+            if rng.random() < 0.3:
+                read_back('client history %d after %s' % (hid, call_no))
+        read_back('client history %d, all calls done' % hid)
+        st.eng.restart()
+        events.append({'e': 'restart'})
+        read_back('client history %d, after re-opening the database' % hid)
+    finally:
+        st.close()
+    return events
+
+
 CONVERT_CASES = []
 
 
@@ -1222,7 +1385,9 @@ def run(ctx):
         '2^63-1; names incl. URI type, duplicates, 100-300 characters; object groups; application specific information; usage mask none / one / all / '
         'random bits; policy name; sensitive flag; consistent and conflicting algorithm/length attributes; refused inputs), under the six KMIP '
         'versions, interleaved with Get / GetAttributes / GetAttributeList under other versions, Activate, Destroy, Locate/Query, engine '
-        're-opens on the same file and a raw sqlite3 dump of the stored row.  A case is distinct when its (secret, attributes) or '
+        're-opens on the same file and a raw sqlite3 dump of the stored row; plus application-level histories in which ONE ProxyKmipClient '
+        'object issues sequences of create / create_key_pair / register / derive_key calls with varying optional arguments and every object '
+        'is read back against what its own call supplied.  A case is distinct when its (secret, attributes) or '
         '(history, step) differs; non-trivial = an event whose answer depends on the stored object.')
     ctx.cov['trusted_extra'] = [
         'SQLAlchemy unit of work / SQLite column affinity: modelled as "a row holds what the type decorator returned"; tied on every run by '
@@ -1249,6 +1414,9 @@ def run(ctx):
     n_hist = 110 if quick else 400
     for h in range(2, n_hist + 2):
         hists.append(run_history(ctx, rng, der, h, rng.randint(14, 30), big))
+    clrng = ctx.subrng('client-histories')
+    for h in range(12 if quick else 80):
+        hists.append(client_history(ctx, clrng, der, 1000 + h, clrng.randint(5, 10)))
     crng = ctx.subrng('convert')
     for _ in range(150 if quick else 1500):
         convert_pair(ctx, g_secret(crng, crng.choice(CLASSES), 64))
